@@ -3,7 +3,8 @@
 From Coq Require Import List Arith.
 From GV.lib Require Import Semiring BigSum.
 From GV.model Require Import Cfg Wfsa WfsaEps.
-From GV.proofs Require Import ConvertProofs.
+From GV.gen Require Import Gen_ToCfg.
+From GV.proofs Require Import ConvertProofs GenToCfgBridge.
 Import ListNotations.
 
 (* Right-recursive conversion, with state names kept apart from the start symbol and (by type) from
@@ -45,3 +46,9 @@ Theorem C17_to_bytes : forall (S : SR) (enc : nat -> list nat) (fresh : nat -> n
   pathsum (to_bytes enc fresh m) bs = bsum (decodings enc V fuel bs) (fun xs => pathsum m xs).
 Proof. intros; apply to_bytes_pathsum; assumption. Qed.
 Print Assumptions C17_to_bytes.
+
+(* WFSA.to_cfg as regenerated from wfsa/base.py on every run is the model the two theorems above are about. *)
+Theorem C17_code_to_cfg_is_model : forall (S : SR) (s0 : nat) (nt : nat -> nat) (m : wfsa S),
+  gen_to_cfg_right S s0 nt m = to_cfg_right s0 nt m /\ gen_to_cfg_left S s0 nt m = to_cfg_left s0 nt m.
+Proof. intros; split; [apply gen_to_cfg_right_model|apply gen_to_cfg_left_model]. Qed.
+Print Assumptions C17_code_to_cfg_is_model.
